@@ -94,8 +94,8 @@ def exhaustive_specs(tier, seed):
     total = len(full)
     if tier == 'quick':
         full = rng.sample(full, 700)
-    elif len(full) > 60000:
-        full = rng.sample(full, 60000)
+    elif len(full) > 6000:
+        full = rng.sample(full, 6000)
     for (K, t, nc, (m, mm, thr, dn)) in full:
         cont = False
         cells = [nc if nc is not None else [0, 0]] + t
@@ -115,7 +115,7 @@ def exhaustive_cont_specs(tier, seed):
     configs = [(mm, thr, dn) for mm in (2, 3) for thr in ([1, 10], [1, 4], [1, 3]) for dn in (True, False)]
     full = [(K, t, nc, cfg) for (K, t) in grid for nc in nan_cells for cfg in configs]
     total = len(full)
-    full = rng.sample(full, 250 if tier == 'quick' else min(len(full), 20000))
+    full = rng.sample(full, 250 if tier == 'quick' else min(len(full), 2000))
     specs = []
     for (K, t, nc, (mm, thr, dn)) in full:
         cells = [nc if nc is not None else []] + t
